@@ -58,6 +58,30 @@ func TestVX_C18_SM2Tables(t *testing.T) {
 			ScalarMult(g, small)
 			scalarBaseMult_SkipBitExtraction_6_3_14(small)
 		}
+		// points built from table entries by the package's own constructor are computed on in place (doubling, adding,
+		// negating, selecting, overwriting): what a table point is made of must be the caller's, not a precomputed value
+		for _, sc := range schemes {
+			for j := range sc.first {
+				if len(sc.first[j]) != 2 {
+					continue
+				}
+				for i := 0; i < len(sc.first[j][0]) && i < len(sc.first[j][1]); i += 5 {
+					if sc.first[j][0][i] == nil || sc.first[j][1][i] == nil {
+						continue
+					}
+					vx.Try(func() {
+						pt := NewFromXY(sc.first[j][0][i], sc.first[j][1][i])
+						q := NewFromXY(sc.first[j][0][0], sc.first[j][1][0])
+						pt.Double(pt)
+						pt.Add(pt, q)
+						pt.Negate(pt)
+						pt.Select(pt, q, 1)
+						q.Set(pt)
+						q.Add(q, q)
+					})
+				}
+			}
+		}
 		r.Set("workload_calls_before_table_check", 64*9)
 	}
 	idx := 0
